@@ -30,19 +30,28 @@ func ensureSandbox() {
 	if sandbox != "" {
 		return
 	}
-	// a name of fixed length: the paths end up in generated files whose sizes are logged
-	dir := filepath.Join(os.TempDir(), fmt.Sprintf("vsim-bodies-%010d", os.Getpid()))
-	os.RemoveAll(dir)
-	err := os.Mkdir(dir, 0o755)
-	if err != nil {
+	// one directory shared by every simulation process on the machine (same name, same read-only content): the
+	// path ends up in generated documents and, through them, in the event log, which must not depend on the
+	// process. Files are created atomically (temporary name, rename) and never removed: a few kilobytes that any
+	// process recreates when missing.
+	dir := filepath.Join(os.TempDir(), "vsim-bodies-v2")
+	if err := os.MkdirAll(dir, 0o755); err != nil {
 		fmt.Println("INFRA:", err)
 		os.Exit(2)
 	}
 	sandbox = dir
-	cleanups = append(cleanups, func() { os.RemoveAll(dir) })
 	for i, c := range [][]byte{[]byte("Hello world!"), []byte("{\"id\": 7}\n"), bytes.Repeat([]byte("z"), 70000), {0, 1, 2, 255}, []byte("\n\nGET http://not-a-target/\n"), []byte("colon in the path")} {
 		bodyFiles = append(bodyFiles, c)
-		if err := os.WriteFile(filepath.Join(dir, bodyFileName(i)), c, 0o644); err != nil {
+		path := filepath.Join(dir, bodyFileName(i))
+		if have, err := os.ReadFile(path); err == nil && bytes.Equal(have, c) {
+			continue
+		}
+		tmp := fmt.Sprintf("%s.%d.tmp", path, os.Getpid())
+		err := os.WriteFile(tmp, c, 0o644)
+		if err == nil {
+			err = os.Rename(tmp, path)
+		}
+		if err != nil {
 			fmt.Println("INFRA:", err)
 			os.Exit(2)
 		}
